@@ -247,7 +247,7 @@ pub fn run(args: &Args) -> Report {
             }
         }
         // ---------------- CTAP level
-        for (rk, form) in [false, true].into_iter().flat_map(|rk| (0..6usize).map(move |f| (rk, f))) {
+        for (rk, form) in [false, true].into_iter().flat_map(|rk| (0..7usize).map(move |f| (rk, f))) {
             // form 5: the request arrives as CBOR whose options map does not name "rk"
             if form == 5 && rk {
                 continue;
@@ -257,7 +257,7 @@ pub fn run(args: &Args) -> Report {
                 continue;
             }
             rep.eval();
-            let form_name = ["store", "Arc<Mutex<store>>", "Arc<RwLock<store>>", "Mutex<store>", "RwLock<store>", "store, request decoded from CBOR with an options map that does not name rk"][form];
+            let form_name = ["store", "Arc<Mutex<store>>", "Arc<RwLock<store>>", "Mutex<store>", "RwLock<store>", "store, request decoded from CBOR with an options map that does not name rk", "store, request encoded by the library and decoded again (as behind a transport)"][form];
             let case = json!({"index": index, "level": "ctap", "capability": format!("{disc:?}"), "rk": rk, "store_form": form_name});
             rep.nontrivial(fnv_str(&case.to_string()));
             let refused = rk && !supports_rk;
@@ -267,6 +267,7 @@ pub fn run(args: &Args) -> Report {
                 match form {
                     0 => ctap_cell(rig.store.clone(), &rig, rk, false),
                     5 => ctap_cell(rig.store.clone(), &rig, rk, true),
+                    6 => ctap_cell_through_the_wire(rig.store.clone(), &rig, rk),
                     1 => ctap_cell(std::sync::Arc::new(tokio::sync::Mutex::new(rig.store.clone())), &rig, rk, false),
                     2 => ctap_cell(std::sync::Arc::new(tokio::sync::RwLock::new(rig.store.clone())), &rig, rk, false),
                     3 => ctap_cell(tokio::sync::Mutex::new(rig.store.clone()), &rig, rk, false),
@@ -463,6 +464,46 @@ pub fn run(args: &Args) -> Report {
             }
         }
     }
+    // ---------------- the library's in-memory store (which finds by id alone): a credential registered under
+    // one RP ID of the origin is asserted under another one (the host itself / its registrable parent /
+    // the member absent) - whatever RP ID the assertion is made under, the user handle returned is the stored one
+    for (reg_rp, auth_rp) in [(Some("www.example.com"), Some("example.com")), (Some("example.com"), Some("www.example.com")), (None, Some("example.com")), (Some("example.com"), None), (Some("example.com"), Some("example.com"))] {
+        for wrapped in [false, true] {
+            index += 1;
+            if only.map_or(false, |o| o != index) {
+                continue;
+            }
+            rep.eval();
+            let case = json!({"index": index, "level": "client", "part": "in-memory store, registered and asserted under different RP IDs of one origin", "rp_id_at_registration": reg_rp, "rp_id_at_assertion": auth_rp, "store": if wrapped {"Arc<Mutex<MemoryStore>>"} else {"MemoryStore"}});
+            rep.nontrivial(fnv_str(&case.to_string()));
+            let r = catch(|| {
+                let log = crate::collab::Log::new();
+                let uv = crate::collab::RecUv::ok(log.clone());
+                let origin = url("https://www.example.com");
+                let mut opts = creation_options(reg_rp, b"the-user", "n", &[1u8; 16], vec![pk_param(coset::iana::Algorithm::ES256)]);
+                opts.public_key.authenticator_selection = Some(AuthenticatorSelectionCriteria { authenticator_attachment: None, resident_key: Some(ResidentKeyRequirement::Required), require_resident_key: true, user_verification: UserVerificationRequirement::Preferred });
+                macro_rules! go {
+                    ($store:expr) => {{
+                        let mut client = passkey_client::Client::new_with_custom_tld_provider(crate::util::mk_auth($store, uv.clone(), AuthCfg::default()), crate::collab::RecTld::default_list(log.clone()));
+                        let reg = block_on(client.register(&origin, opts, DefaultClientData)).map_err(|e| format!("{e:?}"))?;
+                        let a = block_on(client.authenticate(&origin, request_options(auth_rp, &[2u8; 16], Some(vec![descriptor(&reg.raw_id)]), UserVerificationRequirement::Preferred), DefaultClientData)).map_err(|e| format!("{e:?}"))?;
+                        Ok::<Option<Vec<u8>>, String>(a.response.user_handle.map(|h| h.to_vec()))
+                    }};
+                }
+                if wrapped { go!(std::sync::Arc::new(tokio::sync::Mutex::new(passkey_authenticator::MemoryStore::new()))) } else { go!(passkey_authenticator::MemoryStore::new()) }
+            });
+            match r {
+                Err((sig, d)) => rep.violate(&format!("client: {sig}"), d, case),
+                Ok(Err(_)) => rep.count("memory_store_cross_rp_id_refused"),
+                Ok(Ok(uh)) => {
+                    rep.count("memory_store_cross_rp_id_asserted");
+                    if uh.as_deref() != Some(b"the-user".as_slice()) {
+                        rep.violate("client: assertion returns a user handle differently from what the credential stores", format!("the in-memory store holds the user handle; returned {:?}", uh.map(|h| h.len())), case);
+                    }
+                }
+            }
+        }
+    }
     rep.obs("product_size", json!(index));
     if only.is_none() && (rep.get("client_refused") == 0 || rep.get("credprops_checked") == 0 || rep.get("assertions_checked") == 0) {
         rep.inconclusive("refusal, credProps or assertion clause never evaluated".into());
@@ -474,6 +515,19 @@ type CtapCell = (Option<bool>, Result<(), u8>, Vec<crate::collab::CredSnap>, Opt
 
 /// One CTAP-level cell over a store form (the reference store itself or one of the library's lock
 /// wrappers around it): get_info, registration, then two assertions without allow list.
+/// The request goes through the library's own CBOR encoding and decoding before it reaches the
+/// authenticator (what a transport front end does).
+fn ctap_cell_through_the_wire(store: crate::collab::RecStore, rig: &Rig, rk: bool) -> CtapCell {
+    WIRE.with(|w| w.set(true));
+    let r = ctap_cell(store, rig, rk, false);
+    WIRE.with(|w| w.set(false));
+    r
+}
+
+thread_local! {
+    static WIRE: std::cell::Cell<bool> = const { std::cell::Cell::new(false) };
+}
+
 fn ctap_cell<S>(store: S, rig: &Rig, rk: bool, decoded_without_rk: bool) -> CtapCell
 where
     S: passkey_authenticator::CredentialStore<PasskeyItem = passkey_types::Passkey> + Send + Sync,
@@ -498,6 +552,11 @@ where
         let mut b2 = Vec::new();
         ciborium::ser::into_writer(&v, &mut b2).expect("serialise value");
         req = ciborium::de::from_reader(b2.as_slice()).expect("a request without rk in its options decodes");
+    }
+    if WIRE.with(|w| w.get()) {
+        let mut bytes = Vec::new();
+        ciborium::ser::into_writer(&req, &mut bytes).expect("serialise request");
+        req = ciborium::de::from_reader(bytes.as_slice()).expect("the library's own encoding of a request decodes");
     }
     let reg = block_on(auth.make_credential(req));
     let snap = rig.store.snapshot();
